@@ -27,7 +27,10 @@ from pathlib import Path
 
 VERIF = Path(__file__).resolve().parent.parent
 COQ = VERIF / "coq"
-BUILD = VERIF / "build"
+# VERIF_SCRATCH redirects everything a run writes (cases, evidence, replays) - used when a check is
+# pointed at a scratch copy of the repository (DYCE_REPO) while other checks run
+OUT = Path(os.environ["VERIF_SCRATCH"]) if os.environ.get("VERIF_SCRATCH") else VERIF
+BUILD = OUT / "build"
 REPO = Path(os.environ.get("DYCE_REPO", "/repo"))
 PY = "/venv/bin/python"
 DEFAULT_SEED = 20260930
@@ -147,7 +150,7 @@ def scan_forbidden():
 def check_props_file(pid: str):
     """Re-compile Props/<pid>.v on its own and parse Print Assumptions output."""
     src = COQ / "theories" / "Props" / f"{pid}.v"
-    BUILD.mkdir(exist_ok=True)
+    BUILD.mkdir(parents=True, exist_ok=True)
     (BUILD / "props").mkdir(exist_ok=True)
     out_vo = BUILD / "props" / f"{pid}.vo"
     cmd = ["coqc", "-Q", "theories", "Dyce", "-o", str(out_vo), str(src.relative_to(COQ))]
@@ -171,7 +174,7 @@ def check_props_file(pid: str):
 def coq_eval_codes(pid: str, exprs: list[str], shard=250, workers=14, imports="Exec.Run"):
     """Evaluate Coq expressions of type nat by vm_compute (0 = agrees, 1 = disagrees,
     2 = outside the model's domain).  Returns ({index: code} for non-zero codes, error text or None)."""
-    BUILD.mkdir(exist_ok=True)
+    BUILD.mkdir(parents=True, exist_ok=True)
     for old in BUILD.glob(f"cases_{pid}_*"):
         old.unlink()
     files = []
@@ -224,7 +227,7 @@ def coq_eval_bools(pid, exprs, **kw):
 
 def coq_show(expr: str, imports="Exec.Run") -> str:
     """Raw vm_compute rendering of a model answer, for replay files."""
-    BUILD.mkdir(exist_ok=True)
+    BUILD.mkdir(parents=True, exist_ok=True)
     p = BUILD / f"show_{os.getpid()}.v"
     p.write_text(f"From Dyce Require Import {imports}.\nImport ListNotations.\nOpen Scope Z_scope.\n"
                  f"Eval vm_compute in ({expr}).\n")
@@ -255,7 +258,7 @@ def impl_env(extra=None):
 
 def run_impl(pid: str, cases: list, extra_env=None, timeout=1500, tag=""):
     """Run the property's impl adapter over all cases in ONE fresh interpreter."""
-    BUILD.mkdir(exist_ok=True)
+    BUILD.mkdir(parents=True, exist_ok=True)
     cin = BUILD / f"impl_{pid}{tag}_in.json"
     cout = BUILD / f"impl_{pid}{tag}_out.json"
     cin.write_text(json.dumps(cases))
@@ -302,8 +305,8 @@ def load_known():
 
 
 def write_replay(pid: str, payload: dict) -> Path:
-    d = VERIF / "replays"
-    d.mkdir(exist_ok=True)
+    d = OUT / "replays"
+    d.mkdir(parents=True, exist_ok=True)
     blob = json.dumps(payload, sort_keys=True, default=str)
     h = hashlib.sha256(blob.encode()).hexdigest()[:12]
     p = d / f"{pid}-{h}.json"
@@ -313,8 +316,8 @@ def write_replay(pid: str, payload: dict) -> Path:
 
 def write_evidence(pid: str, tier: str, seed: int, coverage: dict, assumptions: list, wall: float,
                    violations: int):
-    d = VERIF / "evidence"
-    d.mkdir(exist_ok=True)
+    d = OUT / "evidence"
+    d.mkdir(parents=True, exist_ok=True)
     ev = {"property_id": pid, "tier": tier, "seed": seed, "level": "proof", "coverage": coverage,
           "assumptions": assumptions, "wall_s": round(wall, 2), "violations": violations}
     (d / f"{pid}.json").write_text(json.dumps(ev, indent=1, default=str))
@@ -480,9 +483,17 @@ def main(pid: str, argv):
         if reported >= 3:
             continue
         reported += 1
-        c2, r2 = shrink(mod, pid, c, r, ok)
+        try:
+            c2, r2 = shrink(mod, pid, c, r, ok)
+        except Exception:  # noqa
+            c2, r2 = c, r
         o = mod.oracle(c2)
-        model_txt = coq_show(mod.coq_show(c2)) if (ok and hasattr(mod, "coq_show")) else None
+        model_txt = None
+        try:
+            expr = mod.coq_show(c2) if (ok and hasattr(mod, "coq_show")) else None
+            model_txt = coq_show(expr) if expr else None
+        except Exception as ex:  # noqa - the replay must be written whatever happens here
+            model_txt = f"(model rendering failed: {ex})"
         payload = {"property": pid, "case": c2, "original_case": c, "implementation": r2, "oracle": o,
                    "model": model_txt,
                    "replay_cmd": f"cd /verif && ./check {pid} --replay <this file>"}
